@@ -59,6 +59,11 @@ func vfH_C08_parse(tier int) {
 	}
 	neg := vfChoice(2) == 1
 	k := 1 + vfChoice(maxK)
+	three := false
+	if tier == 0 && vfChoice(2) == 1 {
+		// quick tier: a few three-component spellings as well (five digits each, large units)
+		k, three = 3, true
+	}
 	text := []byte{}
 	if neg {
 		text = append(text, '-')
@@ -68,7 +73,10 @@ func vfH_C08_parse(tier int) {
 		// digit counts: quick tier uses the boundary lengths only
 		var m int
 		var u c08Unit
-		if tier > 0 || k == 1 {
+		if three {
+			m = 5
+			u = c08Units[[]int{6, 8}[vfChoice(2)]]
+		} else if tier > 0 || k == 1 {
 			m = 1 + vfChoice(maxM+1)
 			u = c08Units[vfChoice(len(c08Units))]
 		} else {
